@@ -139,7 +139,8 @@ func c09Spec(anon bool) string {
 "securityDefinitions":{"key":{"type":"apiKey","in":"header","name":"X-Key"}},
 "paths":{"/items/{id}":{"post":{"security":` + sec + `,"parameters":[{"name":"id","in":"path","type":"string","required":true},
 {"name":"body","in":"body","required":true,"schema":{"type":"object"}}],"responses":{"200":{"description":"ok"}}}},
-"/open":{"get":{"responses":{"200":{"description":"ok"}}}}}}`
+"/open":{"get":{"responses":{"200":{"description":"ok"}}}},
+"/find/{id}":{"get":{"parameters":[{"name":"id","in":"path","type":"string","required":true},{"name":"q","in":"query","type":"string"}],"responses":{"200":{"description":"ok"}}}}}}`
 }
 
 func c09Get(anon bool, authz bool) *c09API {
@@ -195,6 +196,10 @@ func c09Build(anon bool, authz bool) *c09API {
 	api.RegisterOperation("get", "/open", runtime.OperationHandlerFunc(func(params interface{}) (interface{}, error) {
 		return map[string]interface{}{"open": true}, nil
 	}))
+	api.RegisterOperation("get", "/find/{id}", runtime.OperationHandlerFunc(func(params interface{}) (interface{}, error) {
+		m := params.(map[string]interface{})
+		return map[string]interface{}{"id": m["id"], "q": m["q"]}, nil
+	}))
 	api.RegisterProducer("text/plain", runtime.JSONProducer()) // the handler answers maps; only the negotiated type matters here
 	ctx := middleware.NewContext(spec, api, nil)
 	ctx.VerifWrapRouter(func(r middleware.Router) middleware.Router { return c09Router{r} })
@@ -238,6 +243,12 @@ func c09Request(in c09In, rid string) *http.Request {
 	switch in.Target {
 	case "open":
 		method, path = "GET", "/open"
+	case "find":
+		method, path = "GET", "/find/"+rid
+		if in.Esc {
+			path += "%2Fz%20%C3%A9"
+		}
+		path += "?q=orig-" + rid
 	case "missing":
 		method, path = "GET", "/nothing/here"
 	}
@@ -315,6 +326,8 @@ func c09Static(in c09In, a *c09API) string {
 		route = 1
 	case "open":
 		route = 2
+	case "find":
+		route = 3
 	}
 	hasBody := runtime.HasBody(c09Request(in, "r1"))
 	mt, _, cterr := runtime.ContentType(probe.Header)
@@ -391,6 +404,7 @@ func (c09) Run(inAny any) any {
 		obs.Static = c09Static(in, a)
 		c09Cnt = c09Counters{}
 		c09Leaks = nil
+		c09BoundSeen = map[*http.Request]bool{}
 		req := c09Request(in, "r1")
 		for _, o := range in.Ops {
 			var st c09Step
@@ -420,6 +434,12 @@ func c09Op(a *c09API, in c09In, rid string, req *http.Request, o int) (c09Step, 
 		id := 0
 		if ok {
 			id = 2
+			if strings.HasPrefix(mr.PathPattern, "/find") {
+				id = 3
+				if got := mr.Params.Get("id"); got != c09ID(in, rid) {
+					c09Leak("RouteInfo: request %s matched with id %q", rid, got)
+				}
+			}
 			if strings.HasPrefix(mr.PathPattern, "/items") {
 				id = 1
 				if got := mr.Params.Get("id"); got != c09ID(in, rid) {
@@ -477,6 +497,20 @@ func c09Op(a *c09API, in c09In, rid string, req *http.Request, o int) (c09Step, 
 		}
 		bound, r, err := ctx.BindAndValidate(req, mr)
 		st.Res = "RBind " + c09Codes(err)
+		if r != nil {
+			c09BoundSeen[r] = true
+		} else {
+			c09BoundSeen[req] = true
+		}
+		if m, ok := bound.(map[string]interface{}); ok && in.Target == "find" {
+			// the binding outcome is memoised: whatever the caller did to the request meanwhile, the values are those of the first binding
+			if q, present := m["q"]; present && q != "orig-"+rid {
+				c09Leak("BindAndValidate: request %s was bound again (q = %v)", rid, q)
+			}
+			if id, present := m["id"]; present && id != c09ID(in, rid) {
+				c09Leak("BindAndValidate: request %s bound id %v", rid, id)
+			}
+		}
 		if m, ok := bound.(map[string]interface{}); ok && in.Target == "items" {
 			if id, present := m["id"]; present && id != c09ID(in, rid) {
 				c09Leak("BindAndValidate: request %s bound id %v", rid, id)
@@ -490,6 +524,15 @@ func c09Op(a *c09API, in c09In, rid string, req *http.Request, o int) (c09Step, 
 		r := ctx.ResetAuth(req)
 		st.Res = "RReset"
 		keep(r)
+	case 8:
+		// the caller changes the query string of the request value it holds
+		if req.URL != nil && in.Target == "find" && middleware.MatchedRouteFrom(req) != nil {
+			// only once a validation is cached must the values not move; tampering earlier changes the input itself
+			if c09Bound(req) {
+				req.URL.RawQuery = "q=tampered"
+			}
+		}
+		st.Res, st.Same = "RTampered", true
 	case 7:
 		// a fresh copy of this request is served by the whole handler; nothing is threaded back
 		atomic.StoreInt64(&c09Quiet, 1)
@@ -500,9 +543,21 @@ func c09Op(a *c09API, in c09In, rid string, req *http.Request, o int) (c09Step, 
 	return st, req
 }
 
+// c09Bound reports whether a validation is already cached on the request value (a second BindAndValidate returns the same request).
+func c09Bound(req *http.Request) bool {
+	mr := middleware.MatchedRouteFrom(req)
+	if mr == nil {
+		return false
+	}
+	return c09BoundSeen[req]
+}
+
+var c09BoundSeen = map[*http.Request]bool{}
+
 func c09RunMulti(in c09In, obs *c09Obs) {
 	a := c09Get(in.Anon, in.Authz != "none")
 	c09Leaks = nil
+	c09BoundSeen = map[*http.Request]bool{}
 	reqs := make([]*http.Request, len(in.Reqs))
 	obs.Multi = make([][]c09Step, len(in.Reqs))
 	for i, ri := range in.Reqs {
@@ -619,7 +674,7 @@ func (c09) Coq(inAny any, obsAny any) string {
 		return fmt.Sprintf("CConc %d %s %s", in.N, coqBool(obs.Panicked), coqBool(obs.ConcOK))
 	}
 	opName := func(o int) string {
-		return []string{"RouteInfo", "ContentType", "(ResponseFormat 0)", "(ResponseFormat 1)", "Authorize", "BindAndValidate", "ResetAuth", "ServeFresh"}[o]
+		return []string{"RouteInfo", "ContentType", "(ResponseFormat 0)", "(ResponseFormat 1)", "Authorize", "BindAndValidate", "ResetAuth", "ServeFresh", "Tamper"}[o]
 	}
 	stepsOf := func(xs []c09Step) string {
 		return coqList(xs, func(s c09Step) string { return "(" + s.Res + ", " + coqBool(s.Same) + ")" })
@@ -667,7 +722,7 @@ func (c09) Category(inAny any, obsAny any) (string, bool) {
 }
 
 var c09Vals = map[string][]string{
-	"target": {"items", "items", "items", "open", "missing"},
+	"target": {"items", "items", "items", "open", "missing", "find", "find"},
 	"ct":     {"json", "json", "jsoncs", "text", "malformed", "absent"},
 	"body":   {"valid", "valid", "invalid", "none"},
 	"accept": {"json", "absent", "png", "any", "star", "star"},
@@ -686,13 +741,13 @@ func (c09) Gen(r *rand.Rand, tier string, i int) any {
 		m := c09In{Kind: "multi", Anon: r.Intn(2) == 0, Authz: c09Pick(r, "authz")}
 		nreq := 2 + r.Intn(2)
 		for j := 0; j < nreq; j++ {
-			q := c09In{Kind: "seq", Target: []string{"items", "items", "items", "open"}[r.Intn(4)], CT: c09Pick(r, "ct"), Body: c09Pick(r, "body"),
+			q := c09In{Kind: "seq", Target: []string{"items", "items", "items", "open", "find"}[r.Intn(5)], CT: c09Pick(r, "ct"), Body: c09Pick(r, "body"),
 				Accept: c09Pick(r, "accept"), Key: c09Pick(r, "key"), Esc: r.Intn(3) == 0}
 			m.Reqs = append(m.Reqs, q)
 			m.Sched = append(m.Sched, [2]int{j, 0})
 		}
 		for k := 4 + r.Intn(14); k > 0; k-- {
-			m.Sched = append(m.Sched, [2]int{r.Intn(nreq), r.Intn(8)})
+			m.Sched = append(m.Sched, [2]int{r.Intn(nreq), r.Intn(9)})
 		}
 		return m
 	}
@@ -703,7 +758,7 @@ func (c09) Gen(r *rand.Rand, tier string, i int) any {
 		in.Ops = append(in.Ops, 0) // most histories start by matching the route, as the pipeline does
 	}
 	for len(in.Ops) < n {
-		in.Ops = append(in.Ops, r.Intn(8))
+		in.Ops = append(in.Ops, r.Intn(9))
 	}
 	return in
 }
